@@ -112,7 +112,7 @@ func C06(r *drv.Run) {
 		n = 9000
 		ncli = 250
 	}
-	r.Rule = "RunFiles on scratch directories: 18 commands (replacement shorter / longer / empty / identical to the matched text, zero matches, adjacent matches, match at offset 0 and at EOF, captures, a transform, two commands over the same files, find commands) x 1..2 files of sizes 0, 1, 7, 40, 200, 4095..4097, 8191, 8193, 10 000 x {NOTHING, NEW, OVERWRITE}, with stale longer .vored files and bystander files present. Oracle: directory snapshot (type, size, mode, SHA-256, inode) before/after must differ by exactly the change set the mode allows, and the written text must equal the splice of the original bytes with the replacements of the in-memory run at its spans; every file the library opens for writing (hook H5) must be in the allowed set. Thorough tier additionally drives the built CLI under strace and checks every path opened for writing/creating/truncating, renamed, unlinked or truncated. Non-trivial = a replace run with >= 1 match in mode NEW or OVERWRITE whose output was verified; distinct by (command, layout, mode)."
+	r.Rule = "RunFiles on scratch directories: 18 commands (replacement shorter / longer / empty / identical to the matched text, zero matches, adjacent matches, match at offset 0 and at EOF, captures, a transform, two commands over the same files, find commands) x 1..2 files of sizes 0, 1, 7, 40, 200, 4095..4097, 8191, 8193, 10 000 x {NOTHING, NEW, OVERWRITE}, with stale longer .vored files and bystander files present. Oracle: directory snapshot (type, size, mode, SHA-256, inode) before/after must differ by exactly the change set the mode allows, and the written text must equal the splice of the original bytes with the replacements of the in-memory run at its spans; every file the library opens for writing (hook H5) must be in the allowed set. Sessions: 3..6 steps in ONE worker process over the same two paths - a file is rewritten between steps (often with different bytes of the SAME size), then one or two literal replace commands run in a random mode; the expected content of every file after every step comes from a harness-side model (sequential ReplaceAll for OVERWRITE, last command on the unchanged source for NEW), so nothing remembered from an earlier call or command may leak into a later one. Thorough tier additionally drives the built CLI under strace and checks every path opened for writing/creating/truncating, renamed, unlinked or truncated. Non-trivial = a replace run with >= 1 match in mode NEW or OVERWRITE whose output was verified; distinct by (command, layout, mode)."
 	r.Assumptions = []string{
 		"the spans and replacements spliced are those of Run on the same bytes (C01/C05/C07 judge those)",
 		"with two replace commands in one source each command rewrites from the file as the previous command left it (OVERWRITE) or from the unchanged source (NEW): the expected text is computed accordingly",
@@ -135,11 +135,12 @@ func C06(r *drv.Run) {
 			c06Check(r, l, cmd.src, cmd.replace, mode, &c, res, i)
 		}}
 	})
+	c06Sessions(r, n/5)
 	if ncli > 0 {
 		c06CLI(r, ncli)
 	}
 	if r.NViolations() == 0 {
-		for _, k := range []string{"verified_NEW", "verified_OVERWRITE", "verified_NOTHING", "verified_find", "stale_vored_replaced", "write_opens_checked"} {
+		for _, k := range []string{"verified_NEW", "verified_OVERWRITE", "verified_NOTHING", "verified_find", "stale_vored_replaced", "write_opens_checked", "session_steps_verified", "session_same_size_rewrites", "session_multi_command_overwrite_steps"} {
 			if r.Counter(k) == 0 {
 				r.Inconclusive("coverage floor: " + k + " = 0")
 			}
@@ -378,4 +379,143 @@ func c06CLI(r *drv.Run, n int) {
 		os.Remove(logp)
 		os.RemoveAll(l.dir)
 	}
+}
+
+// ---- sessions: several calls and commands over the same paths in one process ---------------------
+
+type litCmd struct{ from, to string }
+
+var c06Words = []string{"cat", "dog", "mat", "rug", "ab", "ba", "xy", "a", "bb"}
+
+func c06Sessions(r *drv.Run, n int) {
+	if n < 40 {
+		n = 40
+	}
+	r.Exec(n, drv.ExecOpts{Batch: 10}, func(i int) *drv.Item {
+		rng := gen.Derive(r.Seed, "C06session", i)
+		dir := filepath.Join(r.WorkDir, "c06s", fmt.Sprint(i))
+		os.MkdirAll(dir, 0o755)
+		names := []string{"one.txt", "two.txt"}
+		model := map[string][]byte{}
+		mkContent := func(size int) []byte {
+			var b []byte
+			for len(b) < size {
+				b = append(b, c06Words[rng.Intn(len(c06Words))]...)
+				b = append(b, " \n"[rng.Intn(2)])
+			}
+			return b[:size]
+		}
+		sizes := map[string]int{"one.txt": []int{23, 60, 4100}[rng.Intn(3)], "two.txt": []int{0, 17, 200}[rng.Intn(3)]}
+		nsteps := 3 + rng.Intn(4)
+		var steps []wire.Step
+		var expect []map[string][]byte
+		sameSize, multiOver := 0, 0
+		for k := 0; k < nsteps; k++ {
+			st := wire.Step{}
+			// rewrite files: always in the first step, later with probability 1/2, mostly keeping the size
+			if k == 0 || rng.Bool() {
+				st.Write = map[string][]byte{}
+				for _, nm := range names {
+					if k == 0 || rng.Bool() {
+						if k > 0 && rng.Chance(1, 4) {
+							sizes[nm] = sizes[nm] + 5
+						} else if k > 0 {
+							sameSize++
+						}
+						c := mkContent(sizes[nm])
+						st.Write[nm] = c
+						model[nm] = c
+					}
+				}
+			}
+			ncmd := 1 + rng.Intn(2)
+			var cmds []litCmd
+			src := ""
+			for q := 0; q < ncmd; q++ {
+				f := c06Words[rng.Intn(len(c06Words))]
+				t := c06Words[rng.Intn(len(c06Words))]
+				if rng.Chance(1, 2) {
+					// same length: the file keeps its size
+					for len(t) != len(f) {
+						t = c06Words[rng.Intn(len(c06Words))]
+					}
+				}
+				cmds = append(cmds, litCmd{f, t})
+				src += "replace all " + gen.Quote(f) + " with " + gen.Quote(t) + "\n"
+			}
+			st.Src = []byte(src)
+			st.Files = names[:1+rng.Intn(2)]
+			st.Mode = []string{"OVERWRITE", "OVERWRITE", "NEW", "NOTHING"}[rng.Intn(4)]
+			for _, nm := range st.Files {
+				switch st.Mode {
+				case "OVERWRITE":
+					cur := model[nm]
+					for _, c := range cmds {
+						cur = bytes.ReplaceAll(cur, []byte(c.from), []byte(c.to))
+					}
+					model[nm] = cur
+					if ncmd > 1 {
+						multiOver++
+					}
+				case "NEW":
+					last := cmds[len(cmds)-1]
+					model[nm+".vored"] = bytes.ReplaceAll(model[nm], []byte(last.from), []byte(last.to))
+				}
+			}
+			snap := map[string][]byte{}
+			for kname, v := range model {
+				snap[kname] = v
+			}
+			steps = append(steps, st)
+			expect = append(expect, snap)
+		}
+		c := wire.Case{Op: "session", Dir: dir, Steps: steps}
+		return &drv.Item{Case: c, Check: func(res *wire.Result) {
+			defer os.RemoveAll(dir)
+			r.Eval(1)
+			if res.Died || res.Panic != nil {
+				msg, frame := firstLines(res.Stderr, 3), ""
+				if res.Panic != nil {
+					msg, frame = res.Panic.Msg, res.Panic.Frame
+				}
+				r.Violate(&drv.Violation{Sig: "session-crashed:" + frame, Panic: msg, Frame: frame, Case: &c})
+				return
+			}
+			if len(res.StepResults) != len(steps) {
+				r.Inconclusive("session: short result")
+				return
+			}
+			for k, sr := range res.StepResults {
+				if sr.CompileErr != "" {
+					r.Inconclusive("session program rejected: " + sr.CompileErr)
+					return
+				}
+				if sr.Panic != nil {
+					r.Violate(&drv.Violation{Sig: "runfiles-panic:" + sr.Panic.Frame, Panic: sr.Panic.Msg, Frame: sr.Panic.Frame, Src: string(steps[k].Src), Case: &c, Detail: map[string]any{"step": k, "mode": steps[k].Mode}})
+					return
+				}
+				for name, want := range expect[k] {
+					got, ok := sr.Contents[name]
+					if !ok || !bytes.Equal(got, want) {
+						r.Violate(&drv.Violation{Sig: "session-file-content-wrong:" + steps[k].Mode, Src: string(steps[k].Src), Case: &c,
+							Detail: map[string]any{"step": k, "of": len(steps), "file": name, "mode": steps[k].Mode, "expected": oneLineN(string(want), 120), "observed": oneLineN(string(got), 120), "first_difference": firstDiff(got, want)}})
+						return
+					}
+				}
+				for name := range sr.Contents {
+					if _, ok := expect[k][name]; !ok {
+						r.Violate(&drv.Violation{Sig: "session-unexpected-file", Src: string(steps[k].Src), Case: &c, Detail: map[string]any{"step": k, "file": name}})
+						return
+					}
+				}
+				r.Count("session_steps_verified", 1)
+			}
+			r.Count("session_same_size_rewrites", sameSize)
+			r.Count("session_multi_command_overwrite_steps", multiOver)
+			r.Nontrivial(fmt.Sprintf("session|%d", i))
+			if i%17 == 0 {
+				r.Sample(map[string]any{"session_steps": len(steps), "first_program": string(steps[0].Src), "first_mode": steps[0].Mode})
+			}
+		}}
+	})
 }
